@@ -44,7 +44,7 @@ TAIL = 6
 
 def budget(tier: str) -> dict[str, Any]:
     if tier == "quick":
-        return {"shards": 8, "cases": 300}
+        return {"shards": 8, "cases": 1200}
     return {"shards": 32, "cases": 6000, "hashseeds": [0, 1, 2, 3]}
 
 
